@@ -295,6 +295,27 @@ class Sim:
     def now(self):
         return self.loop.time()
 
+    def late_ok(self, deadline, now=None, tol=1e-9):
+        """Is something due at `deadline` and processed `now` on time, or late only because of an injected stall?
+
+        On time: now == deadline.  Late: only acceptable when the loop landed late at exactly `now`
+        (time is frozen at the landing instant until everything that became due has been processed).
+        """
+        if now is None:
+            now = self.loop.time()
+        if now + tol < deadline:
+            return False
+        if now - deadline <= tol:
+            return True
+        sl = self.loop.stall_log
+        return bool(sl) and abs(sl[-1][1] - now) <= tol
+
+    def post(self, event, **kwargs):
+        self.machine.events.post(event, **kwargs)
+
+    def hit_switch(self, name, state=1, logical=True):
+        self.machine.switch_controller.process_switch(name, state=state, logical=logical)
+
     def stop(self):
         try:
             self.machine.stop()
